@@ -1,7 +1,7 @@
 (* C12 — property theorems (request media parsed at most once; error caching; handler glue;
    response render cache; the JSON codec round trip). *)
-From Coq Require Import ZArith NArith List Bool Arith.
-From Falcon.C12 Require Import Model Spec Proofs Json JsonProofs ProofsUtf8.
+From Coq Require Import ZArith NArith List Bool Arith Lia.
+From Falcon.C12 Require Import Model Spec Proofs Json JsonProofs ProofsUtf8 Form ProofsForm.
 Import ListNotations.
 
 (* Every call answers from the first handler invocation: later calls return the same object
@@ -202,4 +202,42 @@ Example C12_json_body_example :
 Proof.
   split; [| repeat split; vm_compute; reflexivity].
   repeat constructor.
+Qed.
+
+(* ------------------------------------------------------------------ URL-encoded forms *)
+
+(* falcon.util.uri.decode inverts urllib's quote_plus (percent-decoding over UTF-8, '+' = space) *)
+Theorem C12_decode_quote_plus : forall s q, quote_plus s = Some q -> decode q = Some s.
+Proof. exact decode_quote_plus. Qed.
+Print Assumptions C12_decode_quote_plus.
+
+(* Every form mapping (distinct keys; keys and values over Unicode scalar values; a value is a
+   str or a sequence of >= 2 strs; no field with both an empty name and an empty value) is
+   serialized by URLEncodedFormHandler.serialize (urlencode(doseq=True)) to a body that
+   URLEncodedFormHandler._deserialize (ASCII decode + parse_query_string(keep_blank=True,
+   csv=False)) maps back to the same mapping, keys in the same order. *)
+Theorem C12_form_roundtrip : forall m,
+  canonical m ->
+  exists body, form_print m = Some body /\ form_deserialize_body true body = FOk m.
+Proof. exact form_roundtrip. Qed.
+Print Assumptions C12_form_roundtrip.
+
+(* Non-vacuity: a key with a space and a non-ASCII letter mapped to three values containing
+   reserved characters and an astral character, an empty key, an empty value.  The expected body
+   was produced by urllib.parse.urlencode(doseq=True). *)
+Definition ex_form : list (list N * fval) :=
+  [([107; 32; 233]%N, FSeq [[97; 38; 98; 61; 99]; [43; 37]; [128512]]%N);
+   ([], FStr [120%N]); ([101%N], FStr [])].
+
+Example C12_form_example :
+  canonical ex_form /\
+  form_print ex_form = Some
+  [107; 43; 37; 67; 51; 37; 65; 57; 61; 97; 37; 50; 54; 98; 37; 51; 68; 99; 38; 107; 43; 37; 67; 51;
+   37; 65; 57; 61; 37; 50; 66; 37; 50; 53; 38; 107; 43; 37; 67; 51; 37; 65; 57; 61; 37; 70; 48; 37;
+   57; 70; 37; 57; 56; 37; 56; 48; 38; 61; 120; 38; 101; 61]%N.
+Proof.
+  split; [| vm_compute; reflexivity].
+  split.
+  - cbn. repeat constructor; cbn; intuition discriminate.
+  - repeat constructor; cbn; try lia; try (intuition discriminate).
 Qed.
